@@ -121,6 +121,8 @@ class Gen(object):
         self.wide = prop in ("C01", "C02", "C04", "C05", "C07", "C08", "C09", "C13", "C19", "C20") and rng.random() < (0.012 if tier == "quick" else 0.02)
         self.large = self.wide and prop in ("C01", "C04", "C05", "C07", "C08", "C13") and rng.random() < 0.25
         self.many_ids = (prop in ("C07", "C08") and rng.random() < (0.015 if tier == "quick" else 0.03)) or (prop == "C12" and rng.random() < (0.02 if tier == "quick" else 0.04)) or (prop == "C11" and rng.random() < (0.006 if tier == "quick" else 0.012))
+        # swarm: in some runs the caller's input streams (add_pages / add_links arguments) fail mid-request
+        self.input_faults = prop in ("C01", "C02", "C03", "C04", "C05", "C06", "C07", "C08", "C12", "C13", "C19", "C20", "C11", "C15") and rng.random() < 0.3
         self.bulk = prop in ("C03", "C07", "C08", "C10", "C15", "C18", "C20") and rng.random() < ((0.01 if tier == "quick" else 0.03) if prop != "C18" else 0.06)
         self.created_prefixes = []  # prefixes named in webentity ops so far (for refs)
 
@@ -190,7 +192,12 @@ class Gen(object):
         if k == "add_pages" and r.random() < 0.03:
             return {"op": k, "lrus": [], "crawled": r.random() < 0.5}
         if k == "add_pages":
-            return {"op": k, "lrus": [self.e(self.lru()) for _ in range(r.randint(1, 5))], "crawled": r.random() < 0.5}
+            o = {"op": k, "lrus": [self.e(self.lru()) for _ in range(r.randint(1, 5))], "crawled": r.random() < 0.5}
+            if self.input_faults and r.random() < 0.12:
+                # the caller's input stream fails in the middle of the request
+                o["lrus"] += [self.e(self.lru()) for _ in range(r.randint(1, 3))]
+                o["fault_at"] = r.randrange(len(o["lrus"]))
+            return o
         if k == "add_links" and self.bulk and r.random() < 0.5:
             # a hub: the same few links submitted thousands of times (lists longer than
             # the library's internal yield / window sizes)
@@ -220,7 +227,10 @@ class Gen(object):
                 links.append([self.e(s), self.e(t)])
                 if r.random() < 0.25:
                     links.append([self.e(s), self.e(t)])
-            return {"op": k, "links": links}
+            o = {"op": k, "links": links}
+            if self.input_faults and r.random() < 0.1:
+                o["fault_at"] = r.randrange(len(links))
+            return o
         if k == "batch" and r.random() < 0.04:
             x = r.random()
             if x < 0.4:
